@@ -1898,6 +1898,15 @@ static void get_user_data (interactive_t* ip, io_event_t* evt) {
     default:
       /* No protocol overhead - use full buffer */
       text_space = MAX_TEXT - ip->text_end - 1;
+      if (text_space == 0)
+        {
+          /* A line longer than the buffer: discard it like the telnet port does
+           * (a zero-length recv() returns 0, which reads as a closed connection).
+           */
+          ip->text_start = 0;
+          ip->text_end = 0;
+          text_space = MAX_TEXT - 1;
+        }
       break;
     }
 
